@@ -220,6 +220,24 @@ def handleC14 (op : String) (args : Array Json) : Option Json := do
     let w := Gorm.SCS.runD Gorm.SCS.genSCfg prepare seq
     some (Json.mkObj [("handles", Json.arr ((w.handles.map (poolJ w)).toArray)), ("caches", natJ w.nC),
                       ("one_cache", Json.bool (Gorm.SCS.oneCacheB w)), ("stored", optIdJ w.store)])
+  | "sc.cfg" =>
+    -- the regenerated configuration the models are instantiated with (harness: generators and probes follow it)
+    some (Json.mkObj [("sess_reuse", Json.bool Gorm.SCS.genSCfg.sessReuse), ("sess_atomic", Json.bool Gorm.SCS.genSessAtomic),
+                      ("guard_fail", Json.bool genCfg.guardFail), ("guard_evict", Json.bool genCfg.guardEvict)])
+  | "sc.first" =>
+    -- ["sc.first", [[kind, g]...]]: the concurrent-first-session model (`crun genSessAtomic {}`) on one schedule
+    let acts ← (← jArr? (arg args 1)).toList.mapM fun j => do
+      let a ← jArr? j
+      let k ← jStr? (arg a 0)
+      let g ← jNat? (arg a 1)
+      match k with
+      | "load" => some (Gorm.SCS.CAct.load g)
+      | "build" => some (Gorm.SCS.CAct.build g)
+      | _ => none
+    let s := Gorm.SCS.crun Gorm.SCS.genSessAtomic {} acts
+    let gs := (acts.map fun a => match a with | .load g => g | .build g => g).eraseDups
+    some (Json.mkObj [("allocated", natJ s.nC), ("registered", natListJ s.regs.reverse), ("stored", optIdJ s.store),
+                      ("got", Json.arr ((gs.map fun g => optIdJ (s.got g)).toArray))])
   | "sc.run" =>
     -- ["sc.run", nV, nQ, threads, [[kind, id, ans]...]]: plain fine-grained run (kind: "thr" | "closeE" | "closeH")
     let nV ← jNat? (arg args 1)
